@@ -32,7 +32,7 @@ def fb(x):
 '''
 FN_NAMES = ["fa#1", "fa#10", "fab#1", "fb#2"]
 XS = [0, 1, 2, 3]
-OVERRIDE_KEYS = ["ko/k", "ko/k/sub", "ko/j"]
+OVERRIDE_KEYS = ["ko/k", "ko/k/sub", "ko/j", "ko/q3#final", "ko#a/b#c"]     # (a key may contain '#', the separator of key and version)
 META_KEYS = ["log", "aux"]
 
 BUDGETS_KIB = [2, 3, 4, 8, 64, 1024, 65536]
